@@ -149,13 +149,17 @@ def _objhash(obj):
     import hashlib
     h = hashlib.sha256()
     for cmd in (['objdump', '-D', '-r', '-M', 'intel', '-j', '.text', '--show-raw-insn', '-w', obj], ['readelf', '-sW', obj],
-                ['readelf', '-SW', obj]):
+                ['objdump', '-s', '-j', '.rodata', '-j', '.data', obj]):
         out = subprocess.run(cmd, capture_output=True, text=True).stdout
         h.update('\n'.join(l for l in out.splitlines() if obj not in l and ' FILE ' not in l).encode())
+    # allocated sections only (the sizes of the debug sections depend on the length of the source paths)
+    out = subprocess.run(['readelf', '-SW', obj], capture_output=True, text=True).stdout
+    h.update('\n'.join(re.sub(r'\s+[0-9a-f]{6}\s+', ' ', l) for l in out.splitlines()
+                       if re.search(r'\s(PROGBITS|NOBITS)\s', l) and '.debug' not in l and obj not in l).encode())
     return h.hexdigest()[:32]
 
 
-def _extractor_hash():
+def _extractor_hash_now():
     import hashlib
     h = hashlib.sha256()
     d = os.path.dirname(os.path.abspath(__file__))
@@ -163,6 +167,15 @@ def _extractor_hash():
         if f.startswith('asm') and f.endswith('.py'):
             h.update(open(os.path.join(d, f), 'rb').read())
     return h.hexdigest()[:12]
+
+
+# snapshot taken when the extractor modules are loaded: results are filed under the version of the code that produced them, even if
+# the files are edited while a long run is in progress
+_EXT_HASH = _extractor_hash_now()
+
+
+def _extractor_hash():
+    return _EXT_HASH
 
 
 def _objcache_dir():
@@ -241,11 +254,16 @@ def _stage():
             changed_ok = False
             for src in list(ok):
                 for n in cached[src]['ext']:
-                    # a callee defined in an object that has to be analysed afresh (or defined nowhere we know): analyse the caller afresh too
+                    # the cached facts of a caller hold only next to the very callee objects they were computed with: a callee defined
+                    # in an object that has to be analysed afresh, or in an object with other code than recorded, redoes the caller
                     d_ = defined_in.get(n)
                     if d_ is None or d_ not in ok:
                         if n in cached[src].get('undef_ok', ()):
                             continue
+                        ok.discard(src)
+                        changed_ok = True
+                        break
+                    if cached[src].get('ext_hash', {}).get(n) != hashes.get(d_):
                         ok.discard(src)
                         changed_ok = True
                         break
@@ -311,8 +329,12 @@ def _stage():
             ext = set()
             for r in res.values():
                 ext |= {c for c in r.get('calls', {}) if c not in res}
+            where = {}
+            for s2, h2 in hashes.items():
+                for n2 in results.get(rels[s2], {}):
+                    where.setdefault(n2, h2)
             ent = {'res': res, 'syms': symtab.get(rel), 'secs': sections.get(rel), 'fns': funcs_of.get(rel), 'ext': sorted(ext),
-                   'undef_ok': sorted(c for c in ext if c not in alln)}
+                   'undef_ok': sorted(c for c in ext if c not in alln), 'ext_hash': {c: where.get(c) for c in ext if c in where}}
             tmp = os.path.join(cdir, '%s.%d.tmp' % (h, os.getpid()))
             try:
                 with open(tmp, 'wb') as f:
